@@ -52,7 +52,8 @@ def case_table(run, i):
     for t in th:
         pts += [t, float(np.nextafter(t, -np.inf)), float(np.nextafter(t, np.inf))]
     rows = []
-    for cname in ("3", "X", "Y"):
+    # every other table holds two autosomes whose natural order (9, 10) is not their string order ("10" < "9")
+    for cname in ((("9", "10") if i % 7 < 3 else ("3",)) + ("X", "Y")):
         chrom = chrpre + cname
         r = CN.ref_copies_pure(chrom, ploidy, male_ref)
         cross = []
